@@ -1865,6 +1865,17 @@ fn declare_import(
     params: &[WasmType],
     results: &[WasmType],
 ) -> String {
+    // verif hook (off by default): see `verif_hook_declare_import` below.
+    #[cfg(bytecodealliance_wit_bindgen_verif)]
+    if true {
+        return verif_hook_declare_import(
+            wasm_import_module,
+            wasm_import_name,
+            rust_name,
+            params,
+            results,
+        );
+    }
     let mut sig = "(".to_owned();
     for param in params.iter() {
         sig.push_str("_: ");
@@ -1888,6 +1899,64 @@ fn declare_import(
 
             #[cfg(not(target_arch = \"wasm32\"))]
             unsafe extern \"C\" fn {rust_name}{sig} {{ unreachable!() }}
+        "
+    )
+}
+
+/// Verification hook, compiled only when the *generator* is built with
+/// `--cfg bytecodealliance_wit_bindgen_verif`: the non-wasm shim emitted for a
+/// core import forwards to `crate::verif_host::<module>__<name>` (every
+/// character outside `[A-Za-z0-9]` replaced by `_`) instead of being
+/// `unreachable!()`, so that a native harness crate can play the host. The
+/// wasm32 half of the emitted text is unchanged.
+#[cfg(bytecodealliance_wit_bindgen_verif)]
+fn verif_hook_declare_import(
+    wasm_import_module: &str,
+    wasm_import_name: &str,
+    rust_name: &str,
+    params: &[WasmType],
+    results: &[WasmType],
+) -> String {
+    let mangle = |s: &str| -> String {
+        s.chars()
+            .map(|c| if c.is_ascii_alphanumeric() { c } else { '_' })
+            .collect()
+    };
+    let host = format!(
+        "{}__{}",
+        mangle(wasm_import_module),
+        mangle(wasm_import_name)
+    );
+    let mut sig = "(".to_owned();
+    let mut native_sig = "(".to_owned();
+    let mut args = String::new();
+    for (i, param) in params.iter().enumerate() {
+        sig.push_str("_: ");
+        sig.push_str(wasm_type(*param));
+        sig.push_str(", ");
+        native_sig.push_str(&format!("a{i}: {}, ", wasm_type(*param)));
+        args.push_str(&format!("a{i}, "));
+    }
+    sig.push(')');
+    native_sig.push(')');
+    assert!(results.len() < 2);
+    for result in results.iter() {
+        sig.push_str(" -> ");
+        sig.push_str(wasm_type(*result));
+        native_sig.push_str(" -> ");
+        native_sig.push_str(wasm_type(*result));
+    }
+    format!(
+        "
+            #[cfg(target_arch = \"wasm32\")]
+            #[link(wasm_import_module = \"{wasm_import_module}\")]
+            unsafe extern \"C\" {{
+                #[link_name = \"{wasm_import_name}\"]
+                fn {rust_name}{sig};
+            }}
+
+            #[cfg(not(target_arch = \"wasm32\"))]
+            unsafe extern \"C\" fn {rust_name}{native_sig} {{ unsafe {{ crate::verif_host::{host}({args}) }} }}
         "
     )
 }
